@@ -30,6 +30,33 @@ fn main() {
             std::process::exit(2);
         }
     };
+    if std::env::var("CGV_CHILD").is_err() {
+        // supervisor: complgen is called in-process by the checks; if it takes the process down
+        // (stack overflow, abort) the supervisor still reports something meaningful
+        let root = std::env::temp_dir().join(format!("cgv.{}", std::process::id()));
+        let _ = std::fs::create_dir_all(&root);
+        let me = std::env::current_exe().expect("current_exe");
+        let st = std::process::Command::new(me).args(&args[1..]).env("CGV_CHILD", "1").env("CGV_SCRATCH_ROOT", &root).status();
+        let code = match st {
+            Ok(s) => match s.code() {
+                Some(c) if c == 0 || c == 1 || c == 2 => c,
+                _ => {
+                    eprintln!("check process for {prop} died ({s:?}); examining the inputs it was working on");
+                    let c = cgv::props::after_crash(prop, &root);
+                    if c == 2 {
+                        eprintln!("INCONCLUSIVE: harness process died and no traced input reproduces a violation");
+                    }
+                    c
+                }
+            },
+            Err(e) => {
+                eprintln!("cannot start child: {e}");
+                2
+            }
+        };
+        let _ = std::fs::remove_dir_all(&root);
+        std::process::exit(code);
+    }
     let seed: u64 = std::env::var("VERIF_SEED").ok().and_then(|s| s.trim().parse::<i64>().ok()).map(|v| v as u64).unwrap_or(0);
     // panics inside complgen are reported by the oracles; keep stderr readable
     std::panic::set_hook(Box::new(|_| {}));
